@@ -138,6 +138,8 @@ def families(tier):
         ("C(k)",), ("f", "C(k)", "f:C(k)"), ("g:C(k)",), ("C(k):x", "x"), ("T(g, 't')", "f", "f:T(g, 't')"), ("S(f)", "g", "S(f):g"), ("C(g, Sum)", "C(f, Sum)", "C(g, Sum):C(f, Sum)"),
         ("gen2(x)",), ("f", "gen2(x)", "f:gen2(x)"), ("f:gen2(x)",), ("gen2(x)", "gen2(x):f"), ("f", "g", "h", "j", "f:g", "h:j"), ("f", "g", "f:g", "f:g:h"), ("f:g:h:j",),
         ("f", "g", "h", "f:g", "f:h", "g:h", "f:g:h"), ("x", "f", "g", "f:g", "x:f", "x:g", "x:f:g"),
+        # two numeric and two or three categorical factors in one term
+        ("x:z", "f:g:x:z"), ("z:x", "f:x:g:z"), ("x:z", "g:x:z", "f:g:x:z"), ("f:g:x:z",), ("x:z", "f:g:h:z:x"), ("x:z", "f:x:z", "f:g:x:z"), ("f:g", "f:g:x:z"), ("x", "z", "f:x", "g:z", "f:g:x:z"),
     ]
     for sp in special:
         extra.append((sp, True))
